@@ -67,6 +67,21 @@ def MapEvals (ev : Store → Expr → Except SErr Value → Store → Prop) :
       ((∃ er, MapEvals ev σ₁ es (.error er) σ' ∧ r = .error er) ∨
        (∃ vs, MapEvals ev σ₁ es (.ok vs) σ' ∧ r = .ok (v :: vs))))
 
+/-- the store after binding the rest parameter (if any) to the list of the remaining arguments -/
+def bindRest (σ : Store) (ρ : Nat) (rest : Option String) (restArgs : List Value) : Store :=
+  match rest with
+  | some r => σ.define ρ r (Value.ofList restArgs)
+  | none => σ
+
+/-- internal definitions, fuel-free: each right-hand side is evaluated (by `ev`) in frame `ρ`, in
+the store in which all earlier definitions have already been bound in frame `ρ` -/
+def DefsSeq (ev : Store → Expr → Except SErr Value → Store → Prop) (ρ : Nat) :
+    Store → List Def → Except SErr Unit → Store → Prop
+  | σ, [], r, σ' => r = .ok () ∧ σ' = σ
+  | σ, (.mk x e _) :: ds, r, σ' =>
+    (∃ er, ev σ e (.error er) σ' ∧ r = .error er) ∨
+    (∃ v σ₁, ev σ e (.ok v) σ₁ ∧ DefsSeq ev ρ (σ₁.define ρ x v) ds r σ')
+
 /-! ## the reference evaluator -/
 
 mutual
@@ -157,10 +172,7 @@ def apply : Nat → Store → Value → List Value → Res Value
         match bindFixed σ ρ lam.formals.fixed args with
         | (.error er, σ) => (.error (er, none), σ)
         | (.ok restArgs, σ) =>
-          let σ := match lam.formals.rest with
-            | some r => σ.define ρ r (Value.ofList restArgs)
-            | none => σ
-          match evalDefs k σ ρ lam.defs with
+          match evalDefs k (bindRest σ ρ lam.formals.rest restArgs) ρ lam.defs with
           | (.error er, σ) => (.error er, σ)
           | (.ok (), σ) => evalSeq k σ ρ lam.body
       | _ => (.error (.nonProcedure, none), σ)
@@ -194,8 +206,13 @@ evaluates a pending tail call with `eval_procedure_call`, which reports the oper
 and an unlocated non-procedure error.  So the two agree exactly on every value and on every error
 except that where the reference reports `nonProcedure` the model may report that call's operand
 error, or `nonProcedure` with another location. -/
-def Agree {α} (model ref : Except SErr α) : Prop :=
-  model = ref ∨ ((∃ l, ref = .error (.nonProcedure, l)) ∧ ∃ e, model = .error e)
+def AgreeErr (model ref : SErr) : Prop := model = ref ∨ ∃ l, ref = (.nonProcedure, l)
+
+/-- equal values; errors equal up to `AgreeErr` -/
+def Agree {α} : (model ref : Except SErr α) → Prop
+  | .ok a, .ok b => a = b
+  | .error e, .error e' => AgreeErr e e'
+  | _, _ => False
 
 end Ref
 end Ruschm
